@@ -182,9 +182,14 @@ impl Hist {
         self.by_num.entry(k).or_insert_with(|| c.clone());
         self.commits.push(c.clone());
     }
-    fn pick(&self, rng: &mut Rng) -> Option<Commit> {
-        // any non-root commit ever created (visible or not)
-        let keys: Vec<_> = self.by_num.keys().copied().filter(|k| *k != 0).collect();
+    /// Any non-root commit the given repo knows about (visible or hidden).
+    fn pick(&self, rng: &mut Rng, repo: &Arc<ReadonlyRepo>) -> Option<Commit> {
+        let keys: Vec<_> = self
+            .by_num
+            .iter()
+            .filter(|(k, c)| **k != 0 && repo.index().has_id(c.id()).block_on().unwrap_or(false))
+            .map(|(k, _)| *k)
+            .collect();
         if keys.is_empty() {
             return None;
         }
@@ -203,15 +208,15 @@ fn random_tx(h: &mut Hist, rng: &mut Rng, repo: &Arc<ReadonlyRepo>, collide: boo
         let target = if !created_here.is_empty() && rng.chance(1, 3) {
             Some(rng.pick(&created_here).clone()) // transitive rewrite within the operation
         } else {
-            h.pick(rng)
+            h.pick(rng, repo)
         };
         h.counter += 1;
         let desc = if collide { "same".to_string() } else { format!("d{}", h.counter) };
         match (choice, target) {
             (0..=2, _) | (_, None) => {
                 // new commit, on the root or on top of an existing commit (a stack)
-                let parent = match h.pick(rng) {
-                    Some(p) if rng.chance(1, 2) && repo.index().has_id(p.id()).block_on().unwrap_or(false) => p.id().clone(),
+                let parent = match h.pick(rng, repo) {
+                    Some(p) if rng.chance(1, 2) => p.id().clone(),
                     _ => root.clone(),
                 };
                 let c = tx
@@ -224,7 +229,11 @@ fn random_tx(h: &mut Hist, rng: &mut Rng, repo: &Arc<ReadonlyRepo>, collide: boo
                 h.note("create");
             }
             (3..=5, Some(t)) => {
-                let c = tx.repo_mut().rewrite_commit(&t).set_description(desc).write_unwrap();
+                // an identical rewrite (colliding descriptions) is refused by the repo
+                let Ok(c) = tx.repo_mut().rewrite_commit(&t).set_description(desc).write().block_on() else {
+                    h.note("identical-rewrite-refused");
+                    continue;
+                };
                 h.record(&c);
                 if created_here.iter().any(|x| x.id() == t.id()) {
                     h.note("transitive");
@@ -234,18 +243,23 @@ fn random_tx(h: &mut Hist, rng: &mut Rng, repo: &Arc<ReadonlyRepo>, collide: boo
             }
             (6..=8, Some(t)) => {
                 // squash-like: two predecessors (possibly equal, possibly in either order)
-                let other = h.pick(rng).unwrap();
+                let other = h.pick(rng, repo).unwrap_or_else(|| t.clone());
                 let preds = if rng.chance(1, 2) {
                     vec![t.id().clone(), other.id().clone()]
                 } else {
                     vec![other.id().clone(), t.id().clone()]
                 };
-                let c = tx
+                let Ok(c) = tx
                     .repo_mut()
                     .rewrite_commit(&t)
                     .set_predecessors(preds)
                     .set_description(desc)
-                    .write_unwrap();
+                    .write()
+                    .block_on()
+                else {
+                    h.note("identical-rewrite-refused");
+                    continue;
+                };
                 h.record(&c);
                 created_here.push(c);
                 h.note("rewrite2");
@@ -272,7 +286,7 @@ fn random_tx(h: &mut Hist, rng: &mut Rng, repo: &Arc<ReadonlyRepo>, collide: boo
     new_repo
 }
 
-fn real_history(rng: &mut Rng) -> (String, bool, String) {
+fn real_history(rng: &mut Rng, feats: &mut BTreeMap<&'static str, u64>) -> (String, bool, String) {
     let settings = settings();
     let test_repo = TestRepo::init_with_settings(&settings);
     let repo0 = test_repo.repo.clone();
@@ -292,7 +306,28 @@ fn real_history(rng: &mut Rng) -> (String, bool, String) {
     }
     let rounds = 2 + rng.below(5);
     let mut repo = repo0.clone();
-    let mut history: Vec<Arc<ReadonlyRepo>> = vec![repo0.clone()];
+    if rng.chance(1, 3) {
+        // commits that exist without any operation recording them (as after `jj git import`
+        // or in a repo created by an old jj): the operation's map is emptied
+        let mut tx = repo.start_transaction();
+        for _ in 0..1 + rng.below(3) {
+            h.counter += 1;
+            let c = tx
+                .repo_mut()
+                .new_commit(vec![root.id().clone()], repo.store().empty_merged_tree())
+                .set_description(format!("imported{}", h.counter))
+                .write_unwrap();
+            h.record(&c);
+        }
+        let r = tx.write("import").block_on().unwrap().leave_unpublished();
+        let mut data = r.operation().store_operation().clone();
+        data.commit_predecessors = Some(BTreeMap::new());
+        let op_id = loader.op_store().write_operation(&data).block_on().unwrap();
+        let op = loader.load_operation(&op_id).block_on().unwrap();
+        repo = loader.load_at(&op).block_on().unwrap();
+        h.note("unrecorded-commits");
+    }
+    let mut history: Vec<Arc<ReadonlyRepo>> = vec![repo.clone()];
     for _ in 0..rounds {
         let kind = rng.below(10);
         if kind < 6 {
@@ -357,10 +392,20 @@ fn real_history(rng: &mut Rng) -> (String, bool, String) {
             let mut f = h.features.clone();
             f.sort();
             let shape = format!(
-                "A out={} {}",
-                o.out.len().min(6),
+                "A{}{} out={} {}",
+                if f.contains(&"concurrent-merge") { " merge" } else { "" },
+                if f.contains(&"legacy-head") { " legacy" } else if f.contains(&"unrecorded-commits") { " unrecorded" } else { "" },
+                match o.out.len() {
+                    0 => "0",
+                    1 => "1",
+                    2..=3 => "2-3",
+                    _ => "4+",
+                },
                 if o.cycle.is_some() { "cycle" } else if o.failed { "error" } else { "ok" }
             );
+            for feat in &f {
+                *feats.entry(*feat).or_insert(0) += 1;
+            }
             let _ = f;
             (term(&o, &start), nontrivial, shape)
         }
@@ -400,6 +445,13 @@ fn synth_base(k: usize) -> Synth {
         ids.push(c.id().clone());
     }
     let repo = tx.write("base").block_on().unwrap().leave_unpublished();
+    // the base operation records nothing: the commits exist "from before the history"
+    let loader = repo.loader().clone();
+    let mut data = repo.operation().store_operation().clone();
+    data.commit_predecessors = Some(BTreeMap::new());
+    let op_id = loader.op_store().write_operation(&data).block_on().unwrap();
+    let op = loader.load_operation(&op_id).block_on().unwrap();
+    let repo = loader.load_at(&op).block_on().unwrap();
     Synth { _test_repo: test_repo, repo, nums, ids, clock: 0 }
 }
 
@@ -452,6 +504,24 @@ fn synth_maps(rng: &mut Rng, k: u64, n_ops: usize, valid: bool) -> Vec<Option<NM
                 m.push((c, preds));
             }
             m.sort();
+        }
+        // edge pool: plant a self-loop, a 2-cycle or a 3-cycle inside one operation
+        if rng.chance(1, 3) {
+            let pos = rng.usize(n_ops);
+            let len = 1 + rng.usize(3);
+            let mut nodes: Vec<u64> = (1..=k).collect();
+            rng.shuffle(&mut nodes);
+            let cyc = &nodes[..len];
+            for i in 0..len {
+                let (c, p) = (cyc[i], cyc[(i + 1) % len]);
+                maps[pos].retain(|(x, _)| *x != c);
+                let mut preds = vec![p];
+                if rng.chance(1, 3) {
+                    preds.insert(rng.usize(2), rng.range(1, k));
+                }
+                maps[pos].push((c, preds));
+            }
+            maps[pos].sort();
         }
     }
     let mut out: Vec<Option<NMap>> = maps.into_iter().map(Some).collect();
@@ -527,11 +597,15 @@ fn synthetic(s: &mut Synth, rng: &mut Rng) -> (String, bool, String) {
         Some(o) => {
             let nontrivial = o.out.len() >= 2 || o.cycle.is_some();
             let shape = format!(
-                "B {} ops={}{} out={} {}",
+                "B {}{} out={} {}",
                 if valid { "valid" } else { "arbitrary" },
-                n_ops,
                 if fork { " fork" } else { "" },
-                o.out.len().min(5),
+                match o.out.len() {
+                    0 => "0",
+                    1 => "1",
+                    2..=3 => "2-3",
+                    _ => "4+",
+                },
                 if o.cycle.is_some() { "cycle" } else if o.failed { "error" } else { "ok" }
             );
             (term(&o, &start), nontrivial, shape)
@@ -548,11 +622,15 @@ fn main() {
     jjv::run("C46", "C46", |ctx| {
         // temp repos go to the scratch dir of this run
         unsafe { std::env::set_var("TMPDIR", &ctx.scratch) };
+        if std::env::var_os("C46_DEBUG").is_some() {
+            std::panic::set_hook(Box::new(|info| eprintln!("panic: {info}")));
+        }
         let mut synth = synth_base(7);
+        let mut feats: BTreeMap<&'static str, u64> = BTreeMap::new();
         for i in ctx.indices() {
             let mut rng = ctx.rng(i);
             let (term, nontrivial, shape) = if i % 3 == 0 {
-                real_history(&mut rng)
+                real_history(&mut rng, &mut feats)
             } else {
                 synthetic(&mut synth, &mut rng)
             };
@@ -561,5 +639,6 @@ fn main() {
             }
             ctx.emit(i, term, nontrivial, &shape);
         }
+        ctx.note(format!("stream A feature counts (cases having it): {feats:?}"));
     });
 }
